@@ -494,6 +494,11 @@ impl<T: Types> RaftLog<T> {
         &mut self,
         rec: &WALRecord<T>,
     ) -> Result<Segment, io::Error> {
+        // Validate the record against the current state before journaling it,
+        // so that a rejected write leaves no trace in the WAL, the log index
+        // or the payload cache.
+        self.state_machine.log_state.clone().apply(rec)?;
+
         WAL::append(&mut self.wal, rec)?;
         StateMachine::apply(
             &mut self.state_machine,
